@@ -99,7 +99,7 @@ class C08(Prop):
                "aioswitcher.api.messages:StateMessageParser.get_shutter_position", "aioswitcher.api.messages:StateMessageParser.get_shutter_direction",
                "aioswitcher.api.messages:StateMessageParser.get_thermostat_temp", "aioswitcher.api.messages:StateMessageParser.get_thermostat_remote_id",
                "aioswitcher.api.messages:SwitcherLoginResponse.__post_init__"]
-    min_evaluations = {"quick": 8_000, "thorough": 200_000}
+    min_evaluations = {"quick": 40_000, "thorough": 400_000}
     budget_s = {"quick": 60, "thorough": 900}
 
     def selftest(self):
@@ -113,7 +113,7 @@ class C08(Prop):
         await self.rig.close()
 
     def cases(self, tier, seed, shard, nshards):
-        n = {"quick": 960, "thorough": 40_000}[tier]
+        n = {"quick": 4_800, "thorough": 48_000}[tier]
         for i in range(shard, n, nshards):
             yield {"i": i, "seed": seed}
 
